@@ -321,15 +321,19 @@ def yx1 : CondTab (XQ .f64) 2 2 := #v[⟨#v[q 1 4, q 1 4], q 1 2⟩, ⟨#v[q 0 1
 def yx2 : CondTab (XQ .f64) 1 2 := #v[⟨#v[q 1 4, q 1 4], q 1 2⟩]
 
 /-- FINDING (error label only): in the validating family `merge_cond2` reports the first rejected cell
-    in the value order of Y, so swapping the two values of Y turns the label `sum(a)` into `u` on these
+    in the value order of Y, so swapping the two values of Y turns the label `sum(a)` into `sum(b)+u` on these
     in-range operands whose base rates do not sum to one: conditionals `y|x1 = (1/4,1/4;1/2), (0,1;0)`,
     `y|x2 = (1/4,1/4;1/2)`, `a_X1 = (1/2,1)`, `a_X2 = (1/2)`, `a_Y = (1/4,0)`.
-    (Whether the call is rejected never depends on the order: `C15_mergeCond2_error`.) -/
+    (Whether the call is rejected never depends on the order: `C15_mergeCond2_error`.)
+    Before repair abca806 of the products the second label was `u`: on the operands of the rejected cell,
+    which are not well-formed (the projections are renormalised by a factor ≠ 1), the cancelling candidate
+    `(P - B)/A` gave `u = 28/27 > 1`, the expanded one gives `u = 7/10`, so the cell now fails the next
+    check of `Opinion::new`. -/
 theorem C15_mergeCond2_label_depends_on_Y_order :
     errLabel (mergeCond2 true yx1 yx2 #v[q 1 2, q 1 1] #v[q 1 2] #v[q 1 4, q 0 1]) = some .sumA ∧
     errLabel (mergeCond2 true (permC (Equiv.refl _) (Equiv.swap 0 1) yx1)
         (permC (Equiv.refl _) (Equiv.swap 0 1) yx2) #v[q 1 2, q 1 1] #v[q 1 2]
-        (permT (Equiv.swap 0 1) #v[q 1 4, q 0 1])) = some .u := by
+        (permT (Equiv.swap 0 1) #v[q 1 4, q 0 1])) = some .sumBU := by
   decide +kernel
 
 end examples
